@@ -107,3 +107,28 @@ CHECKS["C13"] = {
 }
 
 NOT_APPLICABLE = {}
+
+# ---- additions made while strengthening the checks against independently seeded changes (DESIGN.md 11.5)
+ADDENDA = {
+    "C01": "The pool contains a physically tiny copy (1e-5), the raw tetrahedron (no vertex-adjacent pair) and, in the thorough tier, huge / far-translated copies; ladders stop being extended once the verdict is decided.",
+    "C02": "Orders are also driven through GLOBAL_PARAMETERS and one reused parameter object; a closed non-manifold surface (two cubes touching along an edge) is in the pool; values must not depend on how many points (1-4) are evaluated together; segment-wise pieces with and without swapped normals sum to the whole.",
+    "C03": "Also: the swapped-normals flag on one space only (against the reversed grid with the complementary flag, and for the double layers against the plain reversed grid), a multitrace grid with junction edges under element renumbering, P1 with default options on open grids, wavenumbers with Im k < 0.",
+    "C04": "Also: every hypersingular twin in the quick tier, different normal flags on test and trial, the library's barycentric prolongation through the exact mass matrix for all kinds and segment selections, nested `segments=` spaces on refined grids.",
+    "C05": "Also: wavenumbers in all four quadrants, potentials with explicit orders on the imaginary-k forwarding path, exchange relations between spaces of different orientation and between two different grids.",
+    "C06": "Also: different normal flags on test and trial, Im k < 0, purely imaginary k (forwarding path), the decomposition for a coupling block between two different grids.",
+    "C07": "Also: the Maxwell magnetic-field identity with complex k (Im k of both signs) in the quick tier, differing normal flags.",
+    "C08": "Also: Im k < 0, purely imaginary k with explicit orders, complex omega for the modified Helmholtz potentials (rejected or exact, never the value of another omega).",
+    "C09": "Also: a grid with one domain stored with reversed orientation (multitrace use of swapped_normals), DUAL1 dof-to-element attachment at the barycentres for every selection.",
+    "C10": "Also: DUAL0 under all four boundary/truncation combinations, DUAL1 on open grids, RBC = nu x BC and SNC = nu x RWG against the geometry on a grid with a reversed domain, untruncated BC/RBC segment functions against the whole-grid functions of the same coarse edges, invariance of the dual/BC function sets under renumbering of the grid.",
+    "C11": "Also: byte-exact snapshots of the operands around every derived-grid operation, mesh families in micrometre and kilometre units.",
+    "C13": "Also: identity with swapped normals on one side only (SNC pair in the quick tier), purity of projections queries, functions given by projections onto another dual space.",
+    "C14": "Also: purity of projections queries, a single-precision dense operator leaf applied to complex data.",
+    "C15": "Also: right-hand side unchanged / second solve / aliasing for the LU-factor path, lists of mixed dtype, data scaled by 1e-7..1e6, a ProductBlockedOperator, the strong-form cg residual history, a blocked system with BC range and SNC dual (non-symmetric mass matrix).",
+    "C16": "Also: vertices of valence 70/130, a same-support pair with different dof maps, potentials at 1 and 3 points, an operator between two different grids, space objects first assembled under one thread and reused under several; odd thread counts on machines with fewer than 7 threads.",
+    "C17": "Also: swapped normals, Im k < 0, fmm.dense_evaluation = True.",
+    "C18": "Also: post-conditions of the events themselves (clear_fmm_cache empties the caches, private parameter objects alias neither the globals nor each other), constructor sweep over every boundary constructor x wavenumber class x assembler (incl. only_diagonal_part) and numerically over potentials / far fields, scripted histories (derived operators leave operands alone in double and single precision; different explicit orders on shared spaces; strong form after a low-order operator), single precision for four operator families and two potentials.",
+    "C19": "Also: single-precision (float32 / complex64) coefficient vectors, vertex values against an area-weighted model computed from pointwise evaluate().",
+    "C20": "Also: the FMM helper kernel called with two targets per call (second target compared).",
+}
+for _k, _v in ADDENDA.items():
+    CHECKS[_k]["text"] = CHECKS[_k]["text"].rstrip() + " " + _v
